@@ -167,6 +167,18 @@ def r7_discard_frees(ctx, rid='C16.R7'):
             r.check(ok, 'discard-then-reclaim|' + name.replace(P, ''), f.loc(bi),
                     '%s: clear_queue %s' % (name.split('::')[-1], 'is followed by reclaim_all_capacity on every path' if ok else
                                             'can be left without reclaim_all_capacity afterwards — clear_queue zeroes buffered_send_data / requested_send_capacity, so capacity still assigned to (or handed back to) the stream at that point is lost to the connection for good'), witness=wit)
+    # and nothing is put back onto the cleared stream queue afterwards (a frame re-queued after the clear is popped again
+    # by the next iteration and the reset branch never terminates)
+    for name in sorted(set(c for c in F.rcg.get(CQ, ()))):
+        f = F.fns.get(name)
+        if f is None:
+            continue
+        pushes = [bi for bi, t in f.calls(lambda t: t['fn'] in (P + 'buffer::Deque::push_front', P + 'buffer::Deque::push_back')) if has_field(f.expr_of_op(f.term(bi)['a'][0]), STREAM, 'pending_send')]
+        for bi, t in f.calls_to(CQ):
+            heads = [x for x in f.dom.get(bi, ()) if x != bi]
+            reach = f.reachable(f.succ[bi], cut_blocks=heads)
+            late = [p_ for p_ in pushes if p_ in reach]
+            r.check(not late, 'nothing-requeued-after-clear|' + name.replace(P, ''), f.loc(bi), '%s: no frame is pushed onto the stream queue after clear_queue within the same pass' % name.split('::')[-1])
     r.floor(n, 3, 'clear_queue call sites')
 
 
